@@ -39,6 +39,7 @@ def run(repo, chk):
     rule_c_g(repo, chk)
     rule_d_e(repo, chk)
     rule_tables(repo, chk)
+    rule_k_l(repo, chk)
 
 
 def _m(cls, name):
@@ -423,3 +424,91 @@ def rule_d_e(repo, chk):
         p = Q.escapes(gr, [e.dst], lambda m: m in sr) if e.dst not in sr else None
         chk.ob('d', rc.ref, 'a rejected call is answered (with an empty value) instead of being dispatched', p is None and bool(sr), loc(rc, e.src.ast),
                discr='rejected-answered')
+
+
+MUTABLE_CTORS = ('dict', 'list', 'set', 'deque', 'defaultdict', 'OrderedDict', 'bytearray')
+
+
+def _mutable_literal(v):
+    return isinstance(v, (ast.Dict, ast.List, ast.Set, ast.DictComp, ast.ListComp, ast.SetComp)) or \
+        (isinstance(v, ast.Call) and (call_name(v) or '').split('.')[-1] in MUTABLE_CTORS)
+
+
+def rule_k_l(repo, chk):
+    chk.rule('C19.k', 'every Protocol listens on the result channel, so the relay answers a finished call only through the protocol that received it: '
+                      'the call is stamped with the receiving protocol before dispatch and the relay tests that stamp against itself')
+    chk.rule('C19.l', 'per-connection state of the node protocol (buffer, call counter, in-flight calls) is per instance: a class-level mutable '
+                      'container is rebound to a fresh one in init() on every path')
+    cls = repo.cls(NODE_PROTOCOL, 'Protocol')
+    pc = need(_m(cls, '__process_packet_call'), 'C19.k: Protocol.__process_packet_call missing')
+    rh = need(_m(cls, 'result_handler'), 'C19.k: Protocol.result_handler missing')
+    chk.touch(pc)
+    chk.touch(rh)
+    g = pc.cfg()
+    fires = [n for n in g.nodes if n.kind == 'stmt' and any(True for _c, _r, _e in pat.fire_calls(n.ast))]
+    need(fires, 'C19.k: __process_packet_call never fires the received event')
+    stamps = {}
+    for n in g.nodes:
+        if n.kind == 'stmt' and isinstance(n.ast, ast.Assign):
+            for recv, attr, val in pat.attr_store(n.ast):
+                if src(val) == 'self' and recv != 'self':
+                    stamps.setdefault(attr, []).append(n)
+    decl = handler_decl_channel(rh)
+    shared = decl == "'node_result'"
+    rg = rh.cfg()
+    sends = [n for n in rg.nodes if n.kind in ('stmt', 'test') and n.ast is not None and any(r == 'self' for r, _c in pat.method_calls(n.ast, 'send_result'))]
+    need(sends, 'C19.k: result_handler never sends a result')
+
+    def own_test(attr):
+        def pred(tt, pol):
+            t = src(tt)
+            if f"'{attr}'" not in t and f'.{attr}' not in t:
+                return False
+            f_ = pat.compare_fact(tt, pol)
+            return f_ is not None and f_[1] in ('is', '==') and 'self' in (f_[0], f_[2])
+        return pat.test_edge(pred)
+    ok = False
+    why = 'no attribute of the received event is stamped with the receiving protocol'
+    for attr, ns in stamps.items():
+        stamped = all(Q.reachable_without(g, f_, avoid_node=lambda n, ns=ns: n in ns) is None for f_ in fires)
+        guarded = all(pat.guarded_by(rg, s_, own_test(attr)) is None for s_ in sends)
+        if stamped and guarded:
+            ok = True
+        else:
+            why = f'stamp `{attr}`: set before every dispatch={stamped}, tested before every relay={guarded}'
+    chk.ob('k', rh.ref, 'a result is relayed only by the protocol that received the call', ok or not shared, loc(rh, rh.node), detail=None if ok else why,
+           discr='relay-own-calls-only')
+    # l: per-instance state
+    ini = need(_m(cls, 'init') or _m(cls, '__init__'), 'C19.l: Protocol has no init')
+    chk.touch(ini)
+    gi = ini.cfg()
+    n_attrs = 0
+    for st in cls.node.body:
+        if isinstance(st, ast.Assign) and len(st.targets) == 1 and isinstance(st.targets[0], ast.Name):
+            nm = st.targets[0].id
+            n_attrs += 1
+            if not _mutable_literal(st.value):
+                continue
+            mutated = any(isinstance(n, (ast.Subscript, ast.Attribute)) and src(n).startswith(f'self.{nm}') and isinstance(getattr(n, 'ctx', None), (ast.Store, ast.Del))
+                          and src(n) != f'self.{nm}' for f in cls.methods.values() for n in ast.walk(f.node)) or \
+                any(isinstance(c.func, ast.Attribute) and src(c.func.value) == f'self.{nm}' and c.func.attr in ('append', 'add', 'update', 'setdefault', 'pop', 'extend', 'remove', 'clear', 'appendleft')
+                    for f in cls.methods.values() for c in calls_in(f.node))
+            fresh = [n for n in gi.nodes if n.kind == 'stmt' and isinstance(n.ast, ast.Assign) and any(r == 'self' and a == nm and _mutable_literal(v) for r, a, v in pat.attr_store(n.ast))]
+            p = Q.escapes(gi, [gi.entry], lambda n: n in fresh, exits=('exit',)) if fresh else ['none']
+            chk.ob('l', f'{NODE_PROTOCOL}::Protocol.{nm}', f'`{nm}` is mutated in place, so every instance gets its own container in init()', (not mutated) or p is None,
+                   f'{NODE_PROTOCOL}:{st.lineno}', discr=f'per-instance:{nm}')
+    need(n_attrs >= 3, 'C19.l: the class-level state of Protocol (buffer, counter, table) was not found')
+    # the counter and the buffer are immutable values rebound through self (augmented assignment creates the instance attribute)
+    for nm in ('__nid', '__buffer'):
+        shared_write = [n for f in cls.methods.values() for n in ast.walk(f.node) if isinstance(n, ast.Attribute) and isinstance(n.ctx, ast.Store) and n.attr == nm
+                        and src(n.value) not in ('self',)]
+        chk.ob('l', f'{NODE_PROTOCOL}::Protocol.{nm}', f'`{nm}` is only written through the instance', not shared_write, NODE_PROTOCOL, discr=f'instance-write:{nm}')
+
+
+def handler_decl_channel(f):
+    for d in f.node.decorator_list:
+        if isinstance(d, ast.Call) and (call_name(d) or '').split('.')[-1] == 'handler':
+            for k in d.keywords:
+                if k.arg == 'channel':
+                    return src(k.value)
+    return None
